@@ -12,12 +12,19 @@
                 the final value; a SET NX round that ends with the key set has
                 exactly one OK and the final value is the winner's. *)
 From Coq Require Export List ZArith NArith Bool.
-From NoKV Require Export Spec.RedisConcSpec Corr.Common.
+From NoKV Require Export Base.Sched Model.RedisConc Spec.RedisConcSpec Corr.Common.
 Export ListNotations.
 
 Inductive round :=
 | RoundIncr (init final : Z) (acks : list ack) (errors : nat)
-| RoundSetnx (oks : list Z) (nils : nat) (errors : nat) (final : option Z).
+| RoundSetnx (oks : list Z) (nils : nat) (errors : nat) (final : option Z)
+(** A controlled schedule executed on the real gateway (hook mode "sched":
+    one pick = one client's begin step or commit step): the programs of the
+    clients working on the key under test (clients working on other keys have
+    the empty program), the schedule expanded to the model's granularity, and
+    what the clients observed. *)
+| RoundSched (base : option Z) (progs : list (list op)) (sched : list nat)
+             (acked_sum : Z) (n_ok n_conflict : nat) (fin : option Z).
 
 (** [Embedded]: rounds run by the harness against the gateway with the embedded
     backend. [Raft]: observations of the raft-backed backend (backend_raft.go
@@ -26,8 +33,26 @@ Inductive round :=
 Inductive deployment := Embedded | Raft.
 Record case := { c_dep : deployment; c_round : round }.
 
+Definition optZ_eqb (a b : option Z) : bool :=
+  match a, b with
+  | Some x, Some y => Z.eqb x y
+  | None, None => true
+  | _, _ => false
+  end.
+
 Definition check_round (c : round) (known : N) : verdict :=
   match c with
+  | RoundSched base progs sched acked_sum n_ok n_conflict fin =>
+      (* the schedule is known, so the model predicts the outcome exactly *)
+      let g := RedisConc.final true base progs sched in
+      let all_incr := forallb (forallb is_incr) progs in
+      let all_setnx := forallb (forallb is_setnx) progs in
+      mk_verdict (negb (finished g && Z.eqb (acked g) acked_sum && Nat.eqb (oks g) n_ok
+                        && Nat.eqb (conflicts g) n_conflict && optZ_eqb (latest base (hist g)) fin))
+                 (negb (if all_incr then Z.eqb (num fin) (num base + acked_sum)
+                        else if all_setnx then (match base with None => setnx_ok_b n_ok | Some _ => Nat.eqb n_ok 0 end)
+                        else true))
+                 known
   | RoundIncr init final acks _ =>
       (* with positive deltas the values only grow, so the chain is unique and the greedy search is complete;
          with mixed deltas a value can be revisited and only the sum is compared *)
@@ -62,6 +87,12 @@ Definition RI (init final : Z) (acks : list ack) (errors : N) : case :=
   {| c_dep := Embedded; c_round := RoundIncr init final acks (N.to_nat errors) |}.
 Definition RS (oks : list Z) (nils errors : N) (final : option Z) : case :=
   {| c_dep := Embedded; c_round := RoundSetnx oks (N.to_nat nils) (N.to_nat errors) final |}.
+Definition I (d : Z) : op := OIncr d.
+Definition X (v : Z) : op := OSetNX v.
+Definition RC (base : option Z) (progs : list (list op)) (sched : list N)
+              (acked_sum : Z) (n_ok n_conflict : N) (fin : option Z) : case :=
+  {| c_dep := Embedded;
+     c_round := RoundSched base progs (map N.to_nat sched) acked_sum (N.to_nat n_ok) (N.to_nat n_conflict) fin |}.
 Definition RIraft (init final : Z) (acks : list ack) (errors : N) : case :=
   {| c_dep := Raft; c_round := RoundIncr init final acks (N.to_nat errors) |}.
 Definition RSraft (oks : list Z) (nils errors : N) (final : option Z) : case :=
